@@ -89,6 +89,18 @@ MUTANTS = [
     M("ueb-key-regex-admits-colon", URI, "        assert re.match(br'^[a-zA-Z_\\-]+$', k)", "        assert re.match(br'^[a-zA-Z_:\\-]+$', k)", "C38.6"),
     M("ueb-entry-without-delimiter", URI, "        pieces.append(k + b':' + hashutil.netstring(value))", "        pieces.append(k + b'=' + hashutil.netstring(value))", "C38.6"),
     M("ueb-encoder-new-int-key", ENC, "        data['num_segments'] = self.num_segments\n", "        data['num_segments'] = self.num_segments\n        data['k'] = self.required_shares\n", "C38.6"),
+    # ---- C38.7 base32 / base62 tables (round trips of both codecs are also exercised by test_base32/test_base62)
+    M("base32-length-class-rejected", "src/allmydata/util/base32.py", "NUM_QS_LEGIT=(1, 0, 1, 0, 1, 1, 0, 1,)", "NUM_QS_LEGIT=(1, 0, 1, 0, 1, 0, 0, 1,)", "C38.7",
+      note="hypothesis round-trip test in test_base32 also notices"),
+    M("base32-last-char-too-strict", "src/allmydata/util/base32.py", "4-(NUM_QS_TO_NUM_BITS[lenmod8]%5)", "4-(NUM_QS_TO_NUM_BITS[lenmod8]%5)+2", "C38.7",
+      note="rejects encoder output; test_base32 also notices"),
+    M("base32-no-upper", "src/allmydata/util/base32.py", "    cs = cs.upper()\n", "", "C38.7", note="test_base32 also notices"),
+    M("base62-radix", "src/allmydata/util/base62.py", "        numvalues *= 62\n", "        numvalues *= 64\n", "C38.7", note="test_base62 also notices"),
+    M("base62-wrong-table", "src/allmydata/util/base62.py", "    return translate(bytes([c for c in reversed(chars)]), v2ctranstable)",
+      "    return translate(bytes([c for c in reversed(chars)]), c2vtranstable)", "C38.7", note="test_base62 also notices"),
+    # ---- C38.8: the finding on the unchanged tree; the one-character repair silences the rule
+    M("repair-base32-last-char-table", "src/allmydata/util/base32.py", "4-(NUM_QS_TO_NUM_BITS[lenmod8]%5)", "5-(NUM_QS_TO_NUM_BITS[lenmod8]%5)", None,
+      note="repair of the C38.8 finding: must be silent whether or not the finding is registered as known"),
     # ---- benign
     M("benign-lease-reader-inlined", LEASE, "        values = struct.unpack(IMMUTABLE_FORMAT, data)\n        return cls(nodeid=None, **dict(zip(names, values)))",
       "        return cls(nodeid=None, **dict(zip(names, struct.unpack(IMMUTABLE_FORMAT, data))))", None),
